@@ -302,6 +302,21 @@ func curves(rng *rand.Rand, n int) {
 		emit("p384", "Add+Double", [][]byte{k, m}, x4.Bytes(), y4.Bytes(), x5.Bytes(), y5.Bytes())
 		emit("p384", "IsOnCurve", [][]byte{k, m}, bb(c.IsOnCurve(x5, y5)), bb(c.IsOnCurve(x5, new(big.Int).Add(y5, big.NewInt(1)))))
 	}
+	// coordinates that are not reduced: curve points with a tiny x spelled x + p, x + 2p (what fits into 384 bits and what does not),
+	// y + p, and negative values
+	for x, found := int64(0), 0; x < 200 && found < 4; x++ {
+		r := new(big.Int).Mul(big.NewInt(x), big.NewInt(x))
+		r.Mul(r, big.NewInt(x)).Sub(r, big.NewInt(3*x)).Add(r, params.B).Mod(r, params.P)
+		y := new(big.Int).ModSqrt(r, params.P)
+		if y == nil {
+			continue
+		}
+		found++
+		X := big.NewInt(x)
+		xp, x2p, yp := new(big.Int).Add(X, params.P), new(big.Int).Add(X, new(big.Int).Lsh(params.P, 1)), new(big.Int).Add(y, params.P)
+		emit("p384", "IsOnCurve(unreduced)", [][]byte{X.Bytes()}, bb(c.IsOnCurve(X, y)), bb(c.IsOnCurve(xp, y)), bb(c.IsOnCurve(x2p, y)), bb(c.IsOnCurve(X, yp)),
+			bb(c.IsOnCurve(new(big.Int).Neg(X), y)), bb(c.IsOnCurve(X, new(big.Int).Neg(y))))
+	}
 }
 
 func eddsa(rng *rand.Rand, n int) {
